@@ -25,8 +25,12 @@ META = {
 MAX_A, MAX_X, MAX_N1, MAX_N2 = 5, 4, 6, 2
 
 
+MULT = [1]
+
+
 def profile(a, x, n1, n2):
-    return [x] * a + ([n1] if n1 else []) + ([n2] if n2 else [])
+    m = MULT[0]
+    return [x * m] * a + ([n1 * m] if n1 else []) + ([n2 * m] if n2 else [])
 
 
 def _cfgvals(scheme, cfg):
@@ -63,6 +67,7 @@ REPS = {}
 
 def prepare(P):
     PL.prepare(P)
+    MULT[0] = int(P.get("mult", 1))
     scheme = P["scheme"]
     cfg = PL.small_config(scheme, P.get("over"))
     for a in range(0, MAX_A + 1):
@@ -136,6 +141,17 @@ def _diff(m1, m2):
 
 
 def h_shape(P, S):
+    # native replay: padding keywords / bucket choices are random with the real primitives, so a shape
+    # difference found under the deterministic LCG is re-tried a few times
+    reps = 12 if P.get("_native") else 1
+    for _ in range(reps):
+        r = _h_shape(P, S)
+        if r is not True:
+            return r
+    return True
+
+
+def _h_shape(P, S):
     scheme = P["scheme"]
     cfg0 = PL.small_config(scheme, P.get("over"))
     a = P["a"]
@@ -162,6 +178,10 @@ def h_shape(P, S):
         tables = []
         for name, v in m.items():
             _tables(name, v, tables)
+        for name, v in m.items():
+            # arrays of encrypted blocks held directly by the index (SSE-1, PiPtr, Pi2Lev): one cell length
+            if isinstance(v, list) and len({len(c) for c in v if isinstance(c, (bytes, bytearray))}) > 1:
+                return S.fail("array-cell-lengths-differ:%s" % name)
         for name, t in tables:
             if len({len(k) for k in t if isinstance(k, (bytes, bytearray))}) > 1:
                 return S.fail("table-key-lengths-differ:%s" % name.split("[")[0])
@@ -187,5 +207,15 @@ def obligations(tier, seed):
                               {"scheme": scheme, "over": over, "a": a, "seed": seed,
                                "max_n1": 3 if tier == "quick" else MAX_N1}, budget_s=400,
                               max_cex=200 if scheme == "ANSS16.Scheme3" else 4))
+    # configurations in which the cipher-block boundary falls between the two kinds of array cells / chunks
+    uneven = {"param_B": 31, "param_b": 31, "param_B_prime": 2, "param_b_prime": 2, "param_identifier_size": 1}
+    obs.append(ob("c05.CJJ14.Pi2Lev.uneven", "harness.c05", "h_shape",
+                  {"scheme": "CJJ14.Pi2Lev", "over": uneven, "a": 0, "seed": seed, "mult": 21, "max_n1": 5},
+                  budget_s=400))
+    if tier == "quick":
+        for a in (0, 1, 3):
+            obs.append(ob("c05.DP17.Pi.L2.a%d" % a, "harness.c05", "h_shape",
+                          {"scheme": "DP17.Pi", "over": {"param_L": 2}, "a": a, "seed": seed, "max_n1": 3},
+                          budget_s=400))
     obs.append(twin("c05.twin", "harness.c05", "h_shape", {"scheme": "CJJ14.PiBas", "over": {}, "a": 1, "twin": True}))
     return obs
